@@ -49,7 +49,9 @@ def project_impl(G, v):
     from orix.vector import Vector3d
     with warnings.catch_warnings():
         warnings.simplefilter("ignore")
-        return Vector3d(np.asarray(v, float)).in_fundamental_sector(G).data.reshape(-1, 3)
+        # own copy in, own copy out: whether the call mutates its operand is property C16's business (site nomut)
+        out = Vector3d(np.array(v, float)).in_fundamental_sector(G)
+        return np.array(out.data.reshape(-1, 3), copy=True)
 
 
 # ---- corr: sector table and model projection ----------------------------------------------
